@@ -97,7 +97,7 @@ class AntecedentMonitor:
             return
         want = rule.weight * value
         ctx.hit(f"compare:degree ({how})")
-        if not W.same(result, want) or not W.same(rule.activation_degree, want):
+        if not W.agree(ctx, result, want, "degree") or not W.agree(ctx, rule.activation_degree, want, "degree"):
             ctx.violation("activation degree is not weight x value of the antecedent read with the documented grammar", {"rule": rule.text, "conjunction": type(conj).__name__, "disjunction": type(disj).__name__, "values": {n: v.value for n, v in variables.items()}}, want, result)
             return
         self.classify(tree, text, variables, conj, disj, contrib, value, rule)
